@@ -132,6 +132,45 @@ fn seeds(thorough: bool) -> Vec<Vec<u8>> {
             out.push(b);
         }
     }
+    // messages whose sections name their descriptor by symbol (sym8 and sym32 width) or by the 8-byte ulong: the
+    // decoder peeks at such a descriptor several times before it consumes it
+    for form in 0..3usize {
+        let d = |code: u8, name: &str| -> Vec<u8> {
+            let mut v = vec![0x00];
+            match form {
+                0 => {
+                    v.extend([0xa3, name.len() as u8]);
+                    v.extend(name.as_bytes());
+                }
+                1 => {
+                    v.push(0xb3);
+                    v.extend((name.len() as u32).to_be_bytes());
+                    v.extend(name.as_bytes());
+                }
+                _ => v.extend([0x80, 0, 0, 0, 0, 0, 0, 0, code]),
+            }
+            v
+        };
+        let mut m = d(0x70, "amqp:header:list");
+        m.extend([0xc0, 0x02, 0x01, 0x41]);
+        m.extend(d(0x73, "amqp:properties:list"));
+        m.extend([0xc0, 0x04, 0x01, 0xa1, 0x01, b'i']);
+        let mut a = m.clone();
+        a.extend(d(0x77, "amqp:amqp-value:*"));
+        a.extend([0xa1, 0x02, b'h', b'i']);
+        out.push(a);
+        let mut b = m.clone();
+        b.extend(d(0x75, "amqp:data:binary"));
+        b.extend([0xa0, 0x02, 0x01, 0x02]);
+        b.extend(d(0x75, "amqp:data:binary"));
+        b.extend([0xa0, 0x01, 0x03]);
+        b.extend(d(0x78, "amqp:footer:map"));
+        b.extend([0xc1, 0x01, 0x00]);
+        out.push(b);
+        let mut c = d(0x76, "amqp:amqp-sequence:list");
+        c.extend([0xc0, 0x03, 0x01, 0x50, 0x07]);
+        out.push(c);
+    }
     let mut seen = HashSet::new();
     out.retain(|b| seen.insert(b.clone()));
     out
@@ -247,6 +286,19 @@ fn bombs(thorough: bool) -> Vec<Vec<u8>> {
                 out.push(inner);
             }
         }
+        // nesting through the DESCRIPTOR position: a described value whose descriptor is a described value ...
+        if d <= 16384 {
+            let mut inner: Vec<u8> = vec![0xa3, 0x01, b'a'];
+            for _ in 0..d {
+                let mut v = vec![0x00];
+                v.extend(&inner);
+                v.push(0x40);
+                inner = v;
+            }
+            out.push(inner);
+        }
+        // ... and the bare run of descriptor markers (what a reader sees before any value)
+        out.push(vec![0x00; (d * 4).min(65536)]);
     }
     // huge declared sizes / counts on tiny inputs
     for code in [0xb0u8, 0xb1, 0xb3, 0xd0, 0xd1, 0xf0] {
